@@ -194,6 +194,7 @@ type World struct {
 
 	finished   bool
 	FailedNew  []string
+	Fired      []FiredFault
 	TapeUsed   int
 	Choices    int // decisions with more than one candidate
 	MaxVirtual time.Duration
@@ -296,6 +297,8 @@ func (w *World) snapshot() []*op {
 			if f := w.findFault(o.actor, o.kind, o.nth); f != nil {
 				o.fault = f
 				if f.Class == "stall" {
+					w.stat("fault." + o.kind.String() + ".stall")
+					w.Fired = append(w.Fired, FiredFault{Actor: o.actor, Op: o.kind.String(), K: o.nth, Class: "stall", At: o.parkAt})
 					// +333ns keeps stalled actors off the microsecond grid on which context
 					// deadlines live (DESIGN 2.1)
 					o.notBefore = o.parkAt + time.Duration(f.Us)*time.Microsecond + 333*time.Nanosecond
@@ -514,6 +517,19 @@ func (w *World) perform(o *op, now time.Duration) {
 		w.Log.add(now, o.actor, "yield", "")
 		w.release(o, opResult{})
 	}
+}
+
+// FiredFault records a fault of the plan that actually took effect.
+type FiredFault struct {
+	Actor string
+	Op    string
+	K     int
+	Class string
+	At    time.Duration
+}
+
+func (w *World) fire(o *op, class string) {
+	w.Fired = append(w.Fired, FiredFault{Actor: o.actor, Op: o.kind.String(), K: o.nth, Class: class, At: w.now()})
 }
 
 // SentinelError is the unique cause injected by a fault.
